@@ -148,7 +148,7 @@ def tlc(workdir, module, cfg=None, workers=None, timeout=600, extra=None, files=
     m = re.search(r"Invariant (\S+) is violated", p.stdout)
     if m:
         r.violated = m.group(1)
-    elif re.search(r"Temporal properties were violated", p.stdout):
+    elif re.search(r"Temporal propert(y \S+ was|ies were) violated", p.stdout):
         r.violated = "temporal"
     elif re.search(r"Action property (\S+) is violated", p.stdout):
         r.violated = re.search(r"Action property (\S+) is violated", p.stdout).group(1)
